@@ -142,7 +142,7 @@ func c05Identity(c *mon.Ctx, r *mon.Rand) {
 	cached := r.Bool()
 	shards := uint(r.Range(1, 64))
 	if r.Bool() {
-		shards = uint(r.Range(1, 3))
+		shards = uint(r.Range(0, 3)) // 0 = the public constructor (GOMAXPROCS shards)
 	}
 	c.Eval(1)
 	base := pool.prog(r, 4)
@@ -184,7 +184,7 @@ func c05Identity(c *mon.Ctx, r *mon.Rand) {
 	var nodes []node
 	var root tally.Scope
 	if c.Guard("panic/"+kind, func() interface{} { return desc }, func() {
-		root, _ = tally.VerifNewRootScope(opts, 0, shards)
+		root, _ = vNewRoot(opts, 0, shards)
 		for pi, p := range progs {
 			ids, _ := rc.trace(p)
 			scs := p.clone().apply(root)
